@@ -628,7 +628,7 @@ def scn_sha(scn):
     return sha({k: v for k, v in scn.items() if k not in ("id", "gen")})
 
 
-def validate_traces(ctx, module, recs, shards=8):
+def validate_traces(ctx, module, recs, shards=8, guard_event="entry"):
     """Trace validation of recorded runs by a Trace_* module (TRACEOK line per accepted run, runs consumed in order)."""
     def one(i):
         part = recs[i::shards]
@@ -657,14 +657,15 @@ def validate_traces(ctx, module, recs, shards=8):
     if recs:
         import copy
         longest = max(recs, key=lambda x: len(x["events"]))
-        idx = [i for i, e in enumerate(longest["events"]) if e.get("ev") == "entry"]
+        idx = [i for i, e in enumerate(longest["events"]) if e.get("ev") == guard_event]
         bad = []
         if idx:
             a = copy.deepcopy(longest)
             del a["events"][idx[len(idx) // 2]]
             b = copy.deepcopy(longest)
             e = b["events"][idx[len(idx) // 2]]
-            e["reported"] = not e["reported"]
+            flip = "reported" if "reported" in e else "buffered"
+            e[flip] = not e[flip]
             bad = [a, b]
         accepted = 0
         for j, rec in enumerate(bad):
